@@ -618,6 +618,10 @@ pub mod backend {
     pub struct Case {
         /// the requests of each life of the node; the node stops after the last request of a life
         pub lives: Vec<Vec<Req>>,
+        /// client reads of each life: (before request index, keyspace, id, through get_many) -- what
+        /// `ReplicatedStoreHandle::get` / `get_many` do, a point lookup straight on the backend. A read can be the very
+        /// first thing that touches a keyspace in a life (after the seeded change `C07q`)
+        pub reads: Vec<Vec<(usize, usize, u64, bool)>>,
     }
 
     pub struct BackendRestart {
@@ -660,13 +664,21 @@ pub mod backend {
             let mut g = ReqGen::new(src);
             g.n_ks = 1 + src.below(3);
             let n_lives = 1 + src.below(3);
-            let lives = (0..n_lives)
+            let lives: Vec<Vec<Req>> = (0..n_lives)
                 .map(|_| {
                     let n = 1 + src.below(10);
                     (0..n).map(|_| g.req(src)).collect()
                 })
                 .collect();
-            Case { lives }
+            let reads = lives
+                .iter()
+                .map(|l| {
+                    (0..src.below(3))
+                        .map(|_| (if src.chance(1, 2) { 0 } else { src.below(l.len() + 1) }, src.below(MAX_KS), *src.pick(&[1u64, 2, 3, 7, u64::MAX]), src.chance(1, 3)))
+                        .collect()
+                })
+                .collect();
+            Case { lives, reads }
         }
 
         fn run(&self, case: &Case) -> Outcome {
@@ -684,6 +696,7 @@ pub mod backend {
         fn describe(&self, case: &Case) -> Value {
             json!({
                 "lives": case.lives.iter().map(|l| l.iter().map(req_json).collect::<Vec<_>>()).collect::<Vec<_>>(),
+                "client_reads(before request, keyspace, id, get_many)": case.reads,
             })
         }
 
@@ -772,12 +785,27 @@ pub mod backend {
         O: Fn(String) -> Fut,
         Fut: std::future::Future<Output = Result<S, String>>,
     {
-        run_lives_with(&case.lives, dir, open, env_of, false)
+        run_lives_with(&case.lives, &case.reads, dir, open, env_of, false)
+    }
+
+    /// A client read is what `ReplicatedStoreHandle::get` / `get_many` do: a point lookup straight on the backend. Nothing
+    /// is compared here on purpose: a read-back around it could repair the very state it is meant to expose.
+    async fn client_reads<S: Storage>(store: &S, reads: &[(usize, usize, u64, bool)], at: usize, life: usize) -> Result<(), Fail> {
+        for (_, k, id, many) in reads.iter().filter(|r| r.0 == at) {
+            let name = ks_name(*k);
+            if *many {
+                store.multi_get(&name, vec![*id, id.wrapping_add(1)].into_iter()).await.map(|_| ()).map_err(|e| Fail { signature: "backend-error".into(), message: format!("life {life}: multi_get({name},{id}) failed: {e}") })?;
+            } else {
+                store.get(&name, *id).await.map(|_| ()).map_err(|e| Fail { signature: "backend-error".into(), message: format!("life {life}: get({name},{id}) failed: {e}") })?;
+            }
+        }
+        Ok(())
     }
 
     /// `compare_after_every_request`: C02's oracle on the real backend (set == storage after every request).
     pub fn run_lives_with<S, O, Fut>(
         lives: &[Vec<Req>],
+        reads: &[Vec<(usize, usize, u64, bool)>],
         dir: &str,
         open: O,
         env_of: impl Fn(&S) -> Option<datacake_lmdb::heed::Env>,
@@ -852,7 +880,13 @@ pub mod backend {
                     }
                 }
                 if let Some(reqs) = lives.get(life) {
+                    let no_reads = vec![];
+                    let life_reads = reads.get(life).unwrap_or(&no_reads);
+                    if !life_reads.is_empty() && !labels.contains(&"client_read") {
+                        labels.push("client_read");
+                    }
                     for (i, r) in reqs.iter().enumerate() {
+                        client_reads(&*store, life_reads, i, life).await?;
                         let ok = send(&group, r).await;
                         if compare_after_every_request {
                             for k in 0..MAX_KS {
@@ -878,6 +912,11 @@ pub mod backend {
                                 eprintln!("DEBUG life {life} req {i} ok={ok} {name}: set {:?} | storage {:?}{}", sv, st, if sv != st { "  <-- DIFFER" } else { "" });
                             }
                         }
+                    }
+                }
+                if let Some(reqs) = lives.get(life) {
+                    if let Some(life_reads) = reads.get(life) {
+                        client_reads(&*store, life_reads, reqs.len(), life).await?;
                     }
                 }
                 let mut views = vec![];
